@@ -327,13 +327,17 @@ def ob_replacement(method, tier="quick"):
         A = s._actual_frontend
         try:
             if method in ("eval", "batch_eval", "max", "min", "solution", "is_true", "is_false", "satisfiable"):
+                params = {}
                 if method == "eval":
-                    r = s.eval(e, 2, extra_constraints=extra); orig = e
+                    params = {"n": 1 + c.choose([True] * 3, "n")}
+                    r = s.eval(e, params["n"], extra_constraints=extra); orig = e
                 elif method == "batch_eval":
                     e2 = reg.add(EH("bv", name="q2"))
-                    r = s.batch_eval([e, e2], 2, extra_constraints=extra); orig = (e, e2)
+                    params = {"n": 1 + c.choose([True] * 3, "n")}
+                    r = s.batch_eval([e, e2], params["n"], extra_constraints=extra); orig = (e, e2)
                 elif method in ("max", "min"):
-                    r = getattr(s, method)(e, extra_constraints=extra, signed=(c.choose([True, True], "signed") == 1)); orig = e
+                    params = {"signed": c.choose([True, True], "signed") == 1}
+                    r = getattr(s, method)(e, extra_constraints=extra, signed=params["signed"]); orig = e
                 elif method == "solution":
                     v = reg.add(const_bv("val"))
                     r = s.solution(e, v, extra_constraints=extra); orig = (e, v)
@@ -346,6 +350,7 @@ def ob_replacement(method, tier="quick"):
                     c.fail(label + "/delegates-once", f"the actual frontend was asked {len(A.queries)} times")
                     return method
                 _query_equiv(c, s, label, method, orig, extra, A.queries[0])
+                c.check(label + "/same-parameters", A.queries[0][3] == params, f"the actual frontend was asked with {A.queries[0][3]}, the caller asked with {params}")
                 c.check(label + "/answer-unchanged", r is A.queries[0][4], "the answer of the actual frontend is not what is returned")
             elif method.startswith("_add"):
                 kind = method[5:-1]
